@@ -36,14 +36,14 @@ theorem length_le_weightTypes (ts : List HType) : ts.length ≤ weightTypes ts :
 /-- `", " + escape(f) + ": " + str(t)` for every further field -/
 def fieldTail : List (Str × HType) → Str
   | [] => []
-  | (n, t) :: r => cp% ", " ++ escapeParsable cc n ++ cp% ": " ++ str cc t ++ fieldTail r
+  | (n, t) :: r => cp% ", " ++ escapeParsable n ++ cp% ": " ++ str cc t ++ fieldTail r
 
 def typeTail : List HType → Str
   | [] => []
   | t :: r => cp% ", " ++ str cc t ++ typeTail r
 
 theorem strFields_cons (n : Str) (t : HType) (r : List (Str × HType)) :
-    strFields cc ((n, t) :: r) = escapeParsable cc n ++ cp% ": " ++ str cc t ++ fieldTail cc r := by
+    strFields cc ((n, t) :: r) = escapeParsable n ++ cp% ": " ++ str cc t ++ fieldTail cc r := by
   induction r generalizing n t with
   | nil => simp [strFields, fieldTail]
   | cons p r ih => obtain ⟨m, u⟩ := p; simp [strFields, fieldTail, ih]
